@@ -302,6 +302,23 @@ def _ops():
     op("Plane(p,p,p)", (3,), ("p0", "p1", "p2"), lambda a, b, c: Plane(a, b, c), coll=False)
     op("Plane(l,p)", (3,), ("l0", "p2"), lambda a, b: Plane(a, b), coll=False)
     op("RegularPolygon(center)", (2,), ("p1",), lambda a: G.RegularPolygon(a, 2, 5), coll=False)
+    # measures of objects that come out of another operation (a transformation given by any representative of its matrix);
+    # the affine map with the same linear and translation part is used so that finite polytopes stay finite
+    def aff(t):
+        a = np.array(t.array, dtype=float)
+        last = a[-1]
+        s_ = last[-1] if last[-1] != 0 else last[np.flatnonzero(last)[0]]
+        a[-1] = 0
+        a[-1, -1] = s_
+        return G.Transformation(a)
+
+    op("(aff(t)*rp).center", (2,), ("t0", "p1"), lambda t, a: (aff(t) * G.RegularPolygon(a, 2, 5)).center, coll=False)
+    op("(aff(t)*rp).radius", (2,), ("t0", "p1"), lambda t, a: (aff(t) * G.RegularPolygon(a, 2, 5)).radius, coll=False)
+    op("(aff(t)*seg).midpoint", (2, 3), ("t0", "s0"), lambda t, x: (aff(t) * x).midpoint, coll=False)
+    op("(aff(t)*seg).length", (2, 3), ("t0", "s0"), lambda t, x: (aff(t) * x).length, coll=False)
+    op("(aff(t)*polygon).area", (2, 3), ("t0", "g0"), lambda t, x: (aff(t) * x).area, coll=False)
+    op("(aff(t)*polygon).centroid", (2,), ("t0", "g0"), lambda t, x: (aff(t) * x).centroid, coll=False)
+    op("(aff(t)*tri).circumcenter", (2, 3), ("t0", "tri"), lambda t, x: (aff(t) * x).circumcenter, coll=False)
     op("RegularPolygon(center,axis)", (3,), ("p1", "p2"), lambda a, b: G.RegularPolygon(a, 2, 5, axis=b), coll=False, scal=(0,))
     op("Cuboid(p,p,p,p)", (3,), ("cub",), lambda c: c.faces.area, coll=False)
     # ---- equality
